@@ -1,4 +1,5 @@
 // simc: the simulator binary. Modes: run | worker | replay | shrink | gen | selftest
+#include <set>
 #include <chrono>
 #include <cstdio>
 #include <cstdlib>
@@ -168,6 +169,7 @@ int main(int argc, char** argv) {
     }
     if (a.mode == "worker") {
         int rc = 0;
+        std::set<uint64_t> states;
         for (uint64_t i = 0; i < a.count; ++i) {
             uint64_t seed = a.from + i * a.stride;
             printf("START %llu\n", (unsigned long long)seed);
@@ -192,6 +194,12 @@ int main(int argc, char** argv) {
             puts(result_line(seed, s, vs, ms).c_str());
             fflush(stdout);
             if (!vs.empty()) rc = 1;
+            states.insert(s.abstract_states.begin(), s.abstract_states.end());
+        }
+        {   // union of the abstract states seen by this worker (coverage measure for the evidence)
+            std::string l = "STATES";
+            for (auto h : states) { char b[24]; snprintf(b, sizeof b, " %llx", (unsigned long long)h); l += b; }
+            puts(l.c_str());
         }
         puts("END");
         return rc;
